@@ -41,3 +41,30 @@ class KnownFindings:
             except Exception:
                 continue
         return None
+
+
+# ---------------------------------------------------------------------------------------------
+# matchers (one per known finding; each names the failing input class precisely)
+# ---------------------------------------------------------------------------------------------
+
+def _scc_arcs(case):
+    from . import oracles as O
+    E = [(a[0], a[1]) for a in case["arcs"]]
+    g = O.STGraph(case["nodes"], E)
+    return [a for a in case["arcs"] if g.is_scc_arc(a[0], a[1])]
+
+
+@matcher("float_flow_scaled_below_one_on_scc_arc_unsolved")
+def _m_scale(case, v, args):
+    """D11: kFlowDecompCycles caps an arc's repetitions at its raw flow value; after multiplying the flows by
+    c < 1 (float weights) an arc inside an SCC gets an integer repetition variable with upper bound
+    floor(c*f) < the repetitions its walk needs, and the feasible instance becomes infeasible (unsolved)."""
+    if v.get("kind") != "scale_dependent_down":
+        return False
+    c = v.get("scale")
+    if c is None or c >= 1:
+        return False
+    if v.get("scaled") != [False, None] or not v.get("unscaled") or v["unscaled"][0] is not True:
+        return False
+    import math
+    return any(math.floor(a[2] * c + 1e-12) < a[2] for a in _scc_arcs(case))
